@@ -200,6 +200,27 @@ def check_sim(acc, which, rule_ids, late=0):
     acc.cases += 1
 
 
+def check_empty_control(acc, which, preset):
+    """A control WITHOUT rules: no rule is applicable, so every recorded duty cycle is 1, whatever the motor's duty was."""
+    spec = base_spec(which)
+    case = {'kind': 'empty', 'model': which, 'preset': preset}
+    m = sim.Model(spec)
+    m.elements[0].pwm = preset
+    ctl = PWMControl(powertrain=m.pt)
+    try:
+        m.run([0.125, 'sec'], [0.5, 'sec'], control=ctl)
+    except Exception as e:
+        acc.violation(f'C14/empty-control/run-error/{type(e).__name__}', 'run succeeds', case, {'exc': repr(e)[:200]})
+        return
+    acc.executions += 1
+    pwm = m.elements[0].time_variables.get('pwm', [])
+    acc.transitions += len(pwm)
+    acc.state(('empty', which, preset))
+    if any(v != 1 for v in pwm):
+        acc.violation('C14/empty-control/default', 'duty cycle is 1 when no rule is applicable (a control without rules)', case,
+                      {'recorded': pwm, 'motor_duty_before_the_run': preset})
+
+
 def run_shard(shard, tier):
     acc = Acc()
     mn = MENU_Q if tier == 'quick' else MENU_T
@@ -218,6 +239,9 @@ def run_shard(shard, tier):
                         acc.executions += 1
         acc.sample({'mode': 'one step', 'rules': list(rule_ids) if shard['size'] else [], 'state': {'t': t, 'theta': th, 'w': w}})
     else:
+        if shard['size'] == 0:
+            for preset in (0.25, 0, -1, 1):
+                check_empty_control(acc, shard['model'], preset)
         for rule_ids in itertools.combinations(mn, shard['size']):
             check_sim(acc, shard['model'], rule_ids)
             if shard['size'] >= 1:
@@ -230,6 +254,8 @@ def replay(case):
     acc = Acc()
     if case.get('kind') == 'step':
         check_step(acc, tuple(case['rules']), case['t'], case['theta'], case['w'])
+    elif case.get('kind') == 'empty':
+        check_empty_control(acc, case['model'], case['preset'])
     elif case.get('kind') == 'sim':
         check_sim(acc, case['model'], tuple(case['rules']), late=case.get('late', 0))
     else:
